@@ -496,13 +496,13 @@ func (s *composeSlice) run(async bool, ck string, scriptText string, x string) s
 		ex = ex.WithContext(guardCtx)
 	}
 	ex = ex.OnDone(func(e failsafe.ExecutionDoneEvent[int]) {
-		s.emit("ex.onDone", 0, e.Attempts(), e.Executions())
+		s.emit(fmt.Sprintf("ex.onDone[%d,%s]", e.Result, errTreeStr(e.Error)), 0, e.Attempts(), e.Executions())
 		doneAtt, doneExe, doneRet, doneHed = e.Attempts(), e.Executions(), e.Retries(), e.Hedges()
 	}).OnSuccess(func(e failsafe.ExecutionDoneEvent[int]) {
-		s.emit("ex.onSuccess", 0, e.Attempts(), e.Executions())
+		s.emit(fmt.Sprintf("ex.onSuccess[%d,%s]", e.Result, errTreeStr(e.Error)), 0, e.Attempts(), e.Executions())
 		verdict = "S"
 	}).OnFailure(func(e failsafe.ExecutionDoneEvent[int]) {
-		s.emit("ex.onFailure", 0, e.Attempts(), e.Executions())
+		s.emit(fmt.Sprintf("ex.onFailure[%d,%s]", e.Result, errTreeStr(e.Error)), 0, e.Attempts(), e.Executions())
 		verdict = "F"
 	})
 	// an executor derived from the same base with listeners of its own: executors derived with WithContext are independent
